@@ -28,13 +28,13 @@ def midpoint_base(e, W, rnd):
 
 def jobs(tier, seed):
     q = tier == 'quick'; rnd = random.Random(seed); J = []
-    W = 16 if q else 20
-    rows_el = sorted(set([-342, -325, -308, -307, -23, -22, -1, 0, 1, 22, 23, 37, 288, 289, 307, 308] + [rnd.randrange(-342, 309) for _ in range(8 if q else 0)])) if q else list(range(-342, 309))
-    rows_pf = sorted(set([-306, -100, -23, -1, 0, 1, 23, 100, 287] + [rnd.randrange(-306, 288) for _ in range(3 if q else 0)])) if q else list(range(-306, 288))
+    W = 16
+    rows_el = sorted(set([-342, -325, -308, -307, -200, -100, -23, -22, -1, 0, 1, 10, 22, 23, 27] + [rnd.randrange(-300, 28) for _ in range(3)])) if q else list(range(-342, 41))
+    rows_pf = sorted(set([-306, -200, -100, -23, -1, 0, 1, 22, 27] + [rnd.randrange(-300, 28) for _ in range(2)])) if q else list(range(-306, 41))
     for kern, rows, name in ((0, rows_el, 'el64'), (1, rows_pf, 'pfnf')):
         for e in rows:
             wins = [((1 << 63), 'at 2^63'), (midpoint_base(e, W, rnd), 'around the decimal neighbours of a seeded double midpoint')]
-            if not q: wins += [((1 << 64) - (1 << W), 'top of the 64-bit range'), (rnd.randrange(1, 1 << 53), 'seeded small mantissa')]
+            if not q: wins += [((1 << 64) - (1 << W), 'top of the 64-bit range')]
             for base, desc in wins:
                 # binary exponents (bits 52.. minus 1075) of the correctly rounded results at both ends of the window
                 def e2_of(man):
@@ -47,6 +47,9 @@ def jobs(tier, seed):
                 J.append(Job('C04.%s.e%d.b%d' % (name, e, base), 'harness/c_atof.cpp', '@h_atof', [kern, e & 0xffffffff, base, W, 0, 0, cands[0] & 0xffffffff, cands[1] & 0xffffffff], engine='cbmc', timeout=3000,
                              bound='%s, decimal exponent %d, all %d mantissas base=%d + delta (%s)' % ('AtofEiselLemire64' if kern == 0 else 'ParseFloatingNormalFast', e, 1 << W, base, desc),
                              extra=dict(bigw=260 + int(3.33 * abs(e)) + 1, unwind=352, input_names=[('int', 'delta')], cbmc_timeout=2400, seed=seed, witness_param=5, witness_optional=True, validate_vectors=2000)))
+    for t in range(33):
+        J.append(Job('C04.text.t%d' % t, 'harness/c_numtext.cpp', '@h_numtext', [t], nproc=2, max_paths=100000, max_steps=20000000,
+                     bound='Document::Parse on number-text template #%d (harness/c_numtext.cpp kTmpl), every value of its symbolic digits' % t))
     return J
 
 
